@@ -172,4 +172,38 @@ theorem exec_codegen_textOnly (c : Cfg) (t : Tmpl) (ht : TextOnly t = true) (n :
     rw [show n + 5 = (n + 4) + 1 from rfl, exec_prim]; rfl
   exact (exec_seq_fwd c ePush).trans eT
 
+/-- **the whole render of a text-only template**: its text, for every crash point, every combination of
+    `error_handler` / `format_exceptions`, every other template in the set, every fuel from `textDepth t + 7` on -/
+theorem render_textOnly (ts : List (Tmpl × Option Bool)) (k : Nat) (t : Tmpl) (ieh : Option Bool) (ht : TextOnly t = true)
+    (o : Opts) (fuel : Nat) (hf : textDepth t + 7 ≤ fuel) :
+    (render (progOf ((t, ieh) :: ts) k) o fuel).1 = .val [] ∧
+      (render (progOf ((t, ieh) :: ts) k) o fuel).2.1 = textOf t := by
+  obtain ⟨n, rfl⟩ := Nat.exists_eq_add_of_le hf
+  obtain ⟨hr, _⟩ := textOnly_noRefs t ht
+  have hbody : runBody (progOf ((t, ieh) :: ts) k) (textDepth t + 7 + n) St.init =
+      (.val [], { St.init with bufs := [(0, textOf t)] }) := by
+    have hm : (progOf ((t, ieh) :: ts) k).prog[0]? = some (codegenModule t ieh) := by simp [progOf]
+    generalize progOf ((t, ieh) :: ts) k = c at hm
+    have e := exec_codegen_textOnly c t ht (textDepth t + n) (by omega)
+      { vars := [] ++ (Loc.init 0).vars, funs := (Loc.init 0).funs, writer := (Loc.init 0).writer, mbuf := [],
+        caller := [], lexc := [], savedNext := [], useLex := false, mod := 0 }
+    simp only [runBody, hm, codegenModule, hr]
+    rw [show textDepth t + 7 + n = (textDepth t + n + 6) + 1 by omega]
+    simp only [invoke, zipArgs, Bool.false_eq_true, if_false]
+    rw [e]
+    simp [decoPost]
+  simp only [render, execTemplate, hbody]
+  cases o.formatExceptions <;> cases o.errorHandler <;> simp
+
+/-- token lists made of text tokens render as the concatenation of their contents, in order -/
+theorem render_text_tokens_core (toks : List Lexer.Token) (t : Tmpl) (h : tmplOfTokens toks = some t)
+    (ts : List (Tmpl × Option Bool)) (ieh : Option Bool) (k : Nat) (o : Opts) (fuel : Nat)
+    (hf : toks.length + 9 ≤ fuel) :
+    (render (progOf ((t, ieh) :: ts) k) o fuel).1 = .val [] ∧
+      (render (progOf ((t, ieh) :: ts) k) o fuel).2.1 = textsOf toks := by
+  obtain ⟨h1, h2, h3⟩ := tmplOfTokens_textOnly toks t h
+  have := render_textOnly ts k t ieh h1 o fuel (by omega)
+  rw [h2] at this
+  exact this
+
 end MakoModel.Codegen
